@@ -48,6 +48,7 @@ class Ctx:
         self.t0 = time.time()
         self.budget_s = budget_s
         self.case_no = 0
+        self.shrinking = False  # set by run_hypothesis when the shrink phase is on
 
     # -- accounting -------------------------------------------------------------------------
     def event(self, label, n=1):
@@ -89,7 +90,7 @@ class Ctx:
         if old is None or size <= old[0]:
             self.violations[bucket] = (size, record)
         self.counters["violation_observations"] += 1
-        if raise_ and not self.collect:
+        if raise_ and self.shrinking and not self.collect:
             raise Violation(bucket)
 
     def summary(self):
@@ -114,6 +115,7 @@ def run_hypothesis(ctx, strategy, fn, max_examples, shrink=None):
     if shrink is None:
         shrink = ctx.tier == "thorough"
     phases = [Phase.generate] + ([Phase.shrink] if shrink and not ctx.collect else [])
+    ctx.shrinking = Phase.shrink in phases
 
     @hypothesis.seed(ctx.shard_seed)
     @settings(
@@ -130,6 +132,8 @@ def run_hypothesis(ctx, strategy, fn, max_examples, shrink=None):
     def test(case):
         if ctx.out_of_time():
             return
+        if not ctx.shrinking and not ctx.collect and len(ctx.violations) >= 3:
+            return  # enough distinct buckets recorded in this shard; do not burn the budget
         ctx.case_no += 1
         fn(ctx, case)
 
@@ -137,6 +141,14 @@ def run_hypothesis(ctx, strategy, fn, max_examples, shrink=None):
         test()
     except Violation:
         pass
+    except hypothesis.errors.Flaky:
+        # z3 may return another model when Hypothesis re-executes a failing case; the violation
+        # itself was recorded with its concrete schedule (replayable without Hypothesis)
+        if not ctx.violations:
+            raise
+        ctx.counters["hypothesis_flaky_reexecution"] += 1
+    finally:
+        ctx.shrinking = False
 
 
 def load_prop(prop):
